@@ -228,6 +228,7 @@ type FnCtx struct {
 	assertHit map[*Clause]int
 	strAssumed map[string]bool
 	pairCache map[string]string
+	splitHints [][3]string
 }
 
 type deferRec struct {
